@@ -86,6 +86,9 @@ type chainGen struct {
 	oneSub  bool
 	subMade bool
 	sysTrust bool // a certificate chain that ends in the machine's trust store was used
+	// honestSigned: per key id, the last honest legacy link this functionary signed, and the step it was for
+	honestSigned map[string]JObj
+	honestStep   map[string]int
 	// the step (and its functionary) that delegated to the level being built
 	parentStep string
 	parentFunc *TestKey
@@ -221,6 +224,7 @@ func (g *chainGen) buildLevel(depth int, initial Files, signers []*TestKey, name
 		if threshold > nf && (cfg.CleanSteps || rng.Chance(85)) {
 			threshold = nf
 		}
+		emptyProducts := false
 		mats := cur
 		prods := mutateFiles(rng, cur)
 		if len(prods) == 0 {
@@ -231,6 +235,7 @@ func (g *chainGen) buildLevel(depth int, initial Files, signers []*TestKey, name
 			// c05-summary-skips-empty-last-step)
 			prods = Files{}
 			lv.Feat = append(lv.Feat, "empty-last")
+			emptyProducts = true
 		}
 		cmd := []any{"build", name}
 		pubkeys := []any{}
@@ -332,6 +337,18 @@ func (g *chainGen) buildLevel(depth int, initial Files, signers []*TestKey, name
 		}
 		st = st.Set("expected_materials", g.rules(prevName, style, true, mats))
 		st = st.Set("expected_products", g.rules(prevName, style, false, prods))
+		if emptyProducts && rng.Chance(60) {
+			// a step that reports NO products, after steps that reported some: its product rules are
+			// evaluated against ITS (empty) set - DISALLOW * holds, REQUIRE of an earlier step's file
+			// does not (seeded change c05-stale-path-set-on-empty-map)
+			if names := keysOf(mats); len(names) > 0 && rng.Bool() {
+				st = st.Set("expected_products", []any{[]any{"REQUIRE", names[rng.Intn(len(names))]}})
+				lv.Feat = append(lv.Feat, "empty-require")
+			} else {
+				st = st.Set("expected_products", []any{[]any{"DISALLOW", "*"}})
+				lv.Feat = append(lv.Feat, "empty-disallow")
+			}
+		}
 		if cfg.StepRuleBreakPct > 0 && top && rng.Chance(cfg.StepRuleBreakPct) {
 			// a STEP rule that fails (every product is disallowed): the verification must stop there,
 			// before any inspection command runs (seeded change c09-single-pass-rules-after-inspections)
@@ -482,7 +499,14 @@ func (g *chainGen) buildLevel(depth int, initial Files, signers []*TestKey, name
 			if altAlg {
 				lt = lt.Set("products", p.artsAlg("sha512"))
 			}
-			put(shortID(f.ID), g.wrapSign(lt, cfg.LinkDSSE, []sigSpec{{key: f}}))
+			signedLink := g.wrapSign(lt, cfg.LinkDSSE, []sigSpec{{key: f}})
+			put(shortID(f.ID), signedLink)
+			if !cfg.LinkDSSE && top {
+				if g.honestSigned == nil {
+					g.honestSigned, g.honestStep = map[string]JObj{}, map[string]int{}
+				}
+				g.honestSigned[f.ID], g.honestStep[f.ID] = signedLink, i
+			}
 		}
 		extra := cfg.ExtraPerStep
 		if certNeeded {
@@ -502,6 +526,33 @@ func (g *chainGen) buildLevel(depth int, initial Files, signers []*TestKey, name
 			}
 			oddProds := prods.copyF()
 			oddProds["evil"] = "1"
+			if kind == "replayed-sig" {
+				// a link for THIS step whose signature was copied from the honest link the same functionary
+				// signed for an EARLIER step (verified, successfully, moments before in the same call): a
+				// signature vouches for the content it was made over, nothing else - even when the forged
+				// content agrees with the honest links (seeded change
+				// c02-accepted-signature-cache-ignores-payload)
+				kind = "tampered"
+				for _, cand := range fs[honest:] {
+					if prev, ok := g.honestSigned[cand.ID]; ok && g.honestStep[cand.ID] < i && top {
+						t := append(JObj{}, prev...)
+						t = t.Set("signed", linkTree(name, mats, prods, cmd))
+						put(shortID(cand.ID), t)
+						lv.Feat = append(lv.Feat, "replayed-sig")
+						if honest >= 1 && honest == threshold && rng.Chance(60) {
+							// ... and it decides: one honest link is taken away, so the step is exactly one
+							// link short unless the forged one is counted
+							delete(files, name+"."+shortID(fs[honest-1].ID)+".link")
+							lv.Feat = append(lv.Feat, "replay-decides")
+						}
+						kind = ""
+						break
+					}
+				}
+				if kind == "" {
+					continue
+				}
+			}
 			switch kind {
 			case "tampered":
 				t := g.wrapSign(linkTree(name, mats, prods, cmd), false, []sigSpec{{key: victim}})
@@ -1049,16 +1100,27 @@ func verifyOnce(a map[string]any, md intoto.Metadata, keys map[string]intoto.Key
 	lineNorm, _ := a["line_norm"].(bool)
 	var out intoto.Metadata
 	var err error
+	wdBefore := ""
 	if str(a["entry"]) == "withdir" {
 		cwd := filepath.Join(scratch(), "cwd")
 		os.MkdirAll(cwd, 0o755)
 		os.Chdir(cwd)
+		wdBefore, _ = os.Getwd()
 		out, err = intoto.InTotoVerifyWithDirectory(md, keys, linkDir, prodDir, str(a["step_name"]), params, inters, lineNorm)
 	} else {
 		os.Chdir(prodDir)
+		wdBefore, _ = os.Getwd()
 		out, err = intoto.InTotoVerify(md, keys, linkDir, str(a["step_name"]), params, inters, lineNorm)
 	}
+	wdAfter, _ := os.Getwd()
 	os.Chdir(origWD)
+	if wdAfter != wdBefore {
+		// the verdict is a function of the inputs only - and the call leaves the process as it found
+		// it: a verification that returns from another working directory changes what every later
+		// call (relative link directories, relative commands) sees
+		// (seeded change c10-rundir-chdir-leaks-on-start-failure)
+		return map[string]any{"res": "process-working-directory-changed"}
+	}
 	if err != nil {
 		return map[string]any{"res": "err"}
 	}
